@@ -316,10 +316,11 @@ theorem AOut_mid {s : Srv} {c : Nat} {req : Req} {t : Srv} {res : HRes} (h : AOu
     (res = .ok → pend (t.ctl c) = none ∧ ∃ x, pairOf (t.ctl c) = (true, some x) ∧ JrCore s c req res t.nClients x) ∧
     (∀ x, res = .issued x → pairOf (t.ctl c) = (true, some x) ∧ JrCore s c req res t.nClients x) ∧
     (∀ n, res = .challenge n → n = s.nextNonce ∧ pend (t.ctl c) = some n ∧ t.nextNonce = n + 1 ∧ req.first = false) ∧
-    s.nextNonce ≤ t.nextNonce ∧ s.nClients ≤ t.nClients := by
+    s.nextNonce ≤ t.nextNonce ∧ s.nClients ≤ t.nClients ∧
+    (t.accepted = s.accepted ∨ ∃ n, pend (s.ctl c) = some n ∧ t.accepted = n :: s.accepted ∧ pend (t.ctl c) = none) := by
   cases h with
   | err a b d e =>
-    refine ⟨Or.inl ?_, ?_, fun h => (by cases h), fun _ h => (by cases h), fun _ h => (by cases h), (by omega), (by omega)⟩
+    refine ⟨Or.inl ?_, ?_, fun h => (by cases h), fun _ h => (by cases h), fun _ h => (by cases h), (by omega), (by omega), Or.inl d⟩
     · rcases e with e | e
       · rw [e]
       · rw [e, hsome]; rfl
@@ -327,7 +328,7 @@ theorem AOut_mid {s : Srv} {c : Nat} {req : Req} {t : Srv} {res : HRes} (h : AOu
       · left; rw [e]
       · right; left; rw [e]; rfl
   | chal a b d e f =>
-    refine ⟨Or.inl ?_, Or.inr (Or.inr ⟨?_, a, rfl⟩), fun h => (by cases h), fun _ h => (by cases h), ?_, (by omega), (by omega)⟩
+    refine ⟨Or.inl ?_, Or.inr (Or.inr ⟨?_, a, rfl⟩), fun h => (by cases h), fun _ h => (by cases h), ?_, (by omega), (by omega), Or.inl d⟩
     · rw [f, hsome]; rfl
     · rw [f]; rfl
     · intro n hn
@@ -336,7 +337,7 @@ theorem AOut_mid {s : Srv} {c : Nat} {req : Req} {t : Srv} {res : HRes} (h : AOu
   | issued a b d e f =>
     have hj : JrCore s c req (.issued s.nClients) t.nClients s.nClients := Or.inl ⟨e, rfl, b, rfl⟩
     refine ⟨Or.inr ⟨s.nClients, by rw [f]; rfl, hj⟩, Or.inl ?_, fun h => (by cases h), ?_, fun _ h => (by cases h),
-      (by omega), (by omega)⟩
+      (by omega), (by omega), Or.inl d⟩
     · rw [f, hsome]; rfl
     · intro x hx
       cases hx
@@ -345,7 +346,7 @@ theorem AOut_mid {s : Srv} {c : Nat} {req : Req} {t : Srv} {res : HRes} (h : AOu
     have hp : pend (s.ctl c) = some n := by rw [hsome]; exact k
     have hj : JrCore s c req .ok t.nClients x := Or.inr ⟨e, f, g, i, n, j, hp, rfl⟩
     refine ⟨Or.inr ⟨x, by rw [l]; rfl, hj⟩, Or.inr (Or.inl (by rw [l]; rfl)), ?_, fun _ h => (by cases h),
-      fun _ h => (by cases h), (by omega), (by omega)⟩
+      fun _ h => (by cases h), (by omega), (by omega), Or.inr ⟨n, hp, d, by rw [l]; rfl⟩⟩
     intro _
     exact ⟨by rw [l]; rfl, x, by rw [l]; rfl, hj⟩
 
@@ -392,6 +393,7 @@ structure HSpec (s : Srv) (c : Nat) (req : Req) (s' : Srv) (r : RespObs) : Prop 
           (c' = c ∧ pend (s'.ctl c) = some s.nextNonce ∧ s'.nextNonce = s.nextNonce + 1 ∧ (r = .ch s.nextNonce ∨ r = .none))
   rch : ∀ n, r = .ch n → n = s.nextNonce ∧ pend (s'.ctl c) = some n ∧ s'.nextNonce = n + 1 ∧ req.first = false
   rna : r ≠ .na
+  acc : s'.accepted = s.accepted ∨ ∃ n, pend (s.ctl c) = some n ∧ s'.accepted = n :: s.accepted ∧ pend (s'.ctl c) = none
 
 theorem handleHandshake_spec (s : Srv) (c : Nat) (ty : Ty) (req : Req) :
     HSpec s c req (handleHandshake s c ty req).1 (handleHandshake s c ty req).2 := by
@@ -399,7 +401,7 @@ theorem handleHandshake_spec (s : Srv) (c : Nat) (ty : Ty) (req : Req) :
   split
   · exact ⟨⟨rfl, rfl, rfl, rfl, rfl⟩, fun _ h => h, Nat.le_refl _, Nat.le_refl _, fun _ => Or.inl rfl,
       fun _ _ h => Or.inl h, fun h => (by cases h), fun _ h => (by cases h), fun _ => Or.inl rfl, fun _ h => (by cases h),
-      by simp⟩
+      (by simp), Or.inl rfl⟩
   · rename_i hlt
     have hlt : c < s.nConns := by omega
     obtain ⟨e1, e2, e3, e4, e5, e6, e7, e8, e9, e10, e11, e12, e13, e14, e15, e16⟩ := ensureCtl_spec s c
@@ -407,7 +409,7 @@ theorem handleHandshake_spec (s : Srv) (c : Nat) (ty : Ty) (req : Req) :
     obtain ⟨g1, g2, g3, g4, g5, g6, g7, g8⟩ := f1
     generalize ht : (HandleHandshake (ensureCtl s c) c req).1 = t at *
     generalize hres : (HandleHandshake (ensureCtl s c) c req).2 = res at *
-    obtain ⟨m1, m2, m3, m4, m5, m6, m7⟩ := AOut_mid f3 (by rw [e2]; exact e1)
+    obtain ⟨m1, m2, m3, m4, m5, m6, m7, m8⟩ := AOut_mid f3 (by rw [e2]; exact e1)
     rw [e4] at m1
     rw [e5] at m2
     obtain ⟨r1, r2, r3, r4, r5, r6, r7, r8, r9, r10, r11, r12, r13, r14, r15, r16⟩ := respond_spec t c ty res
@@ -440,7 +442,13 @@ theorem handleHandshake_spec (s : Srv) (c : Nat) (ty : Ty) (req : Req) :
       intro x hj
       rcases hj with ⟨_, _, _, e⟩ | ⟨_, _, _, _, _, _, _, h⟩ <;> simp_all
     refine ⟨⟨r1.trans (g1.trans e6), r2.trans (g2.trans e7), r3.trans (g3.trans e8), r4.trans (g4.trans e9),
-      r5.trans (g5.trans e10)⟩, ?_, ?_, ?_, ?_, ?_, ?_, ?_, ?_, ?_, r16⟩
+      r5.trans (g5.trans e10)⟩, ?_, ?_, ?_, ?_, ?_, ?_, ?_, ?_, ?_, r16, ?_⟩
+    rotate_right
+    · -- accepted
+      rw [r9, r11]
+      rcases m8 with h | ⟨n, h1, h2, h3⟩
+      · left; rw [h, e16]
+      · right; exact ⟨n, by rw [← e5]; exact h1, by rw [h2, e16], h3⟩
     · intro ip h; rw [r6]; exact g8 ip (by rw [e13]; exact h)
     · rw [r7, ← e14]; exact m7
     · rw [r8, ← e15]; exact m6
@@ -533,14 +541,16 @@ structure StepSpec (s : Srv) (e : Event) (s' : Srv) (r : RespObs) : Prop where
           ∃ c ty k rr, e = .hs c ty k rr ∧ pend (s'.ctl c) = some n
   ban : ∀ ip, e ≠ .unban ip → s.banned ip = true → s'.banned ip = true
   banev : ∀ ip, e = .ban ip → s'.banned ip = true
+  acc : s'.accepted = s.accepted ∨
+          ∃ c n, e.conn? = some c ∧ pend (s.ctl c) = some n ∧ s'.accepted = n :: s.accepted ∧ pend (s'.ctl c) = none
 
 theorem StepSpec.of_same {s : Srv} {e : Event} {s' : Srv} {r : RespObs}
     (hf : s'.now = s.now ∧ s'.nConns = s.nConns ∧ s'.ipOf = s.ipOf ∧ s'.nIps = s.nIps ∧ s'.env = s.env)
     (hc : s'.ctl = s.ctl) (hr : s'.reg = s.reg) (hn : s'.nClients = s.nClients) (hx : s'.nextNonce = s.nextNonce)
     (hr' : r = .na ∨ r = .none) (hb : ∀ ip, e ≠ .unban ip → s.banned ip = true → s'.banned ip = true)
-    (hbe : ∀ ip, e = .ban ip → s'.banned ip = true) : StepSpec s e s' r := by
+    (hbe : ∀ ip, e = .ban ip → s'.banned ip = true) (hacc : s'.accepted = s.accepted) : StepSpec s e s' r := by
   refine ⟨hf, by omega, by omega, fun c' => Or.inl (by rw [hc]), fun y c' h => Or.inl (by rw [hr] at h; exact h), ?_, ?_,
-    fun c' => Or.inl (by rw [hc]), ?_, hb, hbe⟩
+    fun c' => Or.inl (by rw [hc]), ?_, hb, hbe, Or.inl hacc⟩
   · intro h; rcases hr' with h' | h' <;> rw [h'] at h <;> cases h
   · intro x h; rcases hr' with h' | h' <;> rw [h'] at h <;> cases h
   · intro n h; rcases hr' with h' | h' <;> rw [h'] at h <;> cases h
@@ -551,7 +561,11 @@ theorem StepSpec.of_HSpec {s : Srv} {e : Event} {c : Nat} {req : Req} {s' : Srv}
     (hok : r = .ok → ∀ x, req.k = .idx x → ∃ ty rr, e = .hs c ty (.idx x) rr)
     (hnew : ∀ x, r = .new x → req.first = true → ∃ ty, e = .fc c ty)
     (hch : ∀ n, r = .ch n → req.first = false → ∃ ty k rr, e = .hs c ty k rr) : StepSpec s e s' r := by
-  refine ⟨h.frame, h.ncl, h.nonce, ?_, ?_, ?_, ?_, ?_, ?_, fun ip _ hb => h.banmono ip hb, fun ip he => absurd he (hnb ip)⟩
+  refine ⟨h.frame, h.ncl, h.nonce, ?_, ?_, ?_, ?_, ?_, ?_, fun ip _ hb => h.banmono ip hb, fun ip he => absurd he (hnb ip), ?_⟩
+  rotate_right
+  · rcases h.acc with a | ⟨n, a, b, d⟩
+    · exact Or.inl a
+    · exact Or.inr ⟨c, n, hconn, a, b, d⟩
   · intro c'
     rcases h.auth c' with a | a | ⟨a, x, b, d⟩
     · exact Or.inl a
@@ -626,22 +640,22 @@ theorem stepCore_spec (s : Srv) (e : Event) : StepSpec s e (stepCore s e).1 (ste
       exact ⟨ty, rr, rfl⟩
     · intro x _ hf; simp at hf
     · intro n _ _; exact ⟨ty, k, rr, rfl⟩
-  | mal c => exact StepSpec.of_same fr rfl rfl rfl rfl (Or.inr rfl) (fun _ _ h => h) (fun _ h => by cases h)
+  | mal c => exact StepSpec.of_same fr rfl rfl rfl rfl (Or.inr rfl) (fun _ _ h => h) (fun _ h => by cases h) rfl
   | ban ip =>
-    refine StepSpec.of_same fr rfl rfl rfl rfl (Or.inl rfl) ?_ ?_
+    refine StepSpec.of_same fr rfl rfl rfl rfl (Or.inl rfl) ?_ ?_ rfl
     · intro ip' _ h; simp only [stepCore, upd_apply]; split <;> simp_all
     · intro ip' h; cases h; simp [stepCore]
   | unban ip =>
-    refine StepSpec.of_same fr rfl rfl rfl rfl (Or.inl rfl) ?_ (fun _ h => by cases h)
+    refine StepSpec.of_same fr rfl rfl rfl rfl (Or.inl rfl) ?_ (fun _ h => by cases h) rfl
     intro ip' hne h
     have : ip' ≠ ip := fun h' => hne (by rw [h'])
     simp [stepCore, upd_other _ _ _ _ this, h]
-  | bl ip => exact StepSpec.of_same fr rfl rfl rfl rfl (Or.inl rfl) (fun _ _ h => h) (fun _ h => by cases h)
-  | unbl ip => exact StepSpec.of_same fr rfl rfl rfl rfl (Or.inl rfl) (fun _ _ h => h) (fun _ h => by cases h)
-  | refill ip => exact StepSpec.of_same fr rfl rfl rfl rfl (Or.inl rfl) (fun _ _ h => h) (fun _ h => by cases h)
-  | exp k => exact StepSpec.of_same fr rfl rfl rfl rfl (Or.inl rfl) (fun _ _ h => h) (fun _ h => by cases h)
-  | del k => exact StepSpec.of_same fr rfl rfl rfl rfl (Or.inl rfl) (fun _ _ h => h) (fun _ h => by cases h)
-  | strip k => exact StepSpec.of_same fr rfl rfl rfl rfl (Or.inl rfl) (fun _ _ h => h) (fun _ h => by cases h)
+  | bl ip => exact StepSpec.of_same fr rfl rfl rfl rfl (Or.inl rfl) (fun _ _ h => h) (fun _ h => by cases h) rfl
+  | unbl ip => exact StepSpec.of_same fr rfl rfl rfl rfl (Or.inl rfl) (fun _ _ h => h) (fun _ h => by cases h) rfl
+  | refill ip => exact StepSpec.of_same fr rfl rfl rfl rfl (Or.inl rfl) (fun _ _ h => h) (fun _ h => by cases h) rfl
+  | exp k => exact StepSpec.of_same fr rfl rfl rfl rfl (Or.inl rfl) (fun _ _ h => h) (fun _ h => by cases h) rfl
+  | del k => exact StepSpec.of_same fr rfl rfl rfl rfl (Or.inl rfl) (fun _ _ h => h) (fun _ h => by cases h) rfl
+  | strip k => exact StepSpec.of_same fr rfl rfl rfl rfl (Or.inl rfl) (fun _ _ h => h) (fun _ h => by cases h) rfl
 
 /-! ### the invariant -/
 
@@ -1116,3 +1130,75 @@ theorem holdsFrom_run {s : Srv} (I : Inv s) (es : List Event) :
     have := ih (I.preserved e)
     rw [(step_now_ipOf s e).1, (step_now_ipOf s e).2] at this
     exact this
+
+/-! ### every challenge is accepted at most once (ghost list `accepted` of ALL accepted phase-2 nonces) -/
+
+theorem pend_step (s : Srv) (e : Event) (c m : Nat) (h : pend ((step s e).1.ctl c) = some m) :
+    pend (s.ctl c) = some m ∨ (e.conn? = some c ∧ m = s.nextNonce ∧ (step s e).1.nextNonce = s.nextNonce + 1) := by
+  have sp := stepCore_spec s e
+  have q1 : (step s e).1.ctl = (stepCore s e).1.ctl := rfl
+  have q2 : (step s e).1.nextNonce = (stepCore s e).1.nextNonce := rfl
+  rw [q1] at h
+  rcases sp.pending c with a | a | ⟨a, b, d, _⟩
+  · left; rw [← a]; exact h
+  · rw [a] at h; cases h
+  · right; rw [b] at h; exact ⟨a, by simpa using h.symm, by rw [q2]; exact d⟩
+
+structure AccInv (s : Srv) : Prop where
+  /-- a pending challenge was never accepted -/
+  a1 : ∀ c n, pend (s.ctl c) = some n → n ∉ s.accepted
+  /-- no nonce was accepted twice -/
+  a2 : s.accepted.Nodup
+  /-- accepted nonces were issued -/
+  a3 : ∀ n, n ∈ s.accepted → n < s.nextNonce
+
+theorem AccInv.preserved {s : Srv} (I : Inv s) (A : AccInv s) (e : Event) : AccInv (Tunnox.C03.step s e).1 := by
+  have sp := stepCore_spec s e
+  have q1 : (Tunnox.C03.step s e).1.ctl = (stepCore s e).1.ctl := rfl
+  have q2 : (Tunnox.C03.step s e).1.nextNonce = (stepCore s e).1.nextNonce := rfl
+  have q3 : (Tunnox.C03.step s e).1.accepted = (stepCore s e).1.accepted := rfl
+  have hn := sp.nonce
+  rcases sp.acc with hacc | ⟨c, n, hc, hp, hacc, hnone⟩
+  · refine ⟨?_, by rw [q3, hacc]; exact A.a2, ?_⟩
+    · intro c1 m h hm
+      rw [q3, hacc] at hm
+      rcases pend_step s e c1 m h with a | ⟨_, a, _⟩
+      · exact A.a1 c1 m a hm
+      · have := A.a3 m hm; omega
+    · intro m hm
+      rw [q3, hacc] at hm
+      rw [q2]
+      have := A.a3 m hm; omega
+  · refine ⟨?_, ?_, ?_⟩
+    · intro c1 m h hm
+      rw [q3, hacc] at hm
+      rcases pend_step s e c1 m h with a | ⟨a1, a2, _⟩
+      · rcases List.mem_cons.mp hm with hm | hm
+        · subst hm
+          have := I.i5 c1 c m a hp
+          subst this
+          rw [q1, hnone] at h
+          cases h
+        · exact A.a1 c1 m a hm
+      · rw [hc] at a1
+        have : c = c1 := by simpa using a1
+        subst this
+        rw [q1, hnone] at h
+        cases h
+    · rw [q3, hacc]
+      exact List.nodup_cons.mpr ⟨A.a1 c n hp, A.a2⟩
+    · intro m hm
+      rw [q3, hacc] at hm
+      rw [q2]
+      rcases List.mem_cons.mp hm with hm | hm
+      · subst hm; have := I.i1 c m hp; omega
+      · have := A.a3 m hm; omega
+
+theorem AccInv.initial (now : Nat) (ips : List Nat) (nc burst : Nat) : AccInv (Srv.init now ips nc burst) := by
+  refine ⟨?_, ?_, ?_⟩ <;> simp [Srv.init, pend]
+
+theorem reachable_invs (s : Srv) (I : Inv s) (A : AccInv s) (es : List Event) :
+    Inv (runState s es) ∧ AccInv (runState s es) := by
+  induction es generalizing s with
+  | nil => exact ⟨I, A⟩
+  | cons e es ih => exact ih _ (I.preserved e) (A.preserved I e)
